@@ -94,11 +94,14 @@ class MailDriver:
             d0 = holder[0]
             if d0 is not None:
                 d0._resyncing += 1
+                rm = d0.__dict__.setdefault("_resync_mb", {})
+                rm[self.name] = rm.get(self.name, 0) + 1
             try:
                 changed = await orig_check(self, *a, **k)
             finally:
                 if d0 is not None:
                     d0._resyncing -= 1
+                    d0._resync_mb[self.name] -= 1
             d = holder[0]
             if changed:
                 snap = list(self.uids)
